@@ -38,6 +38,7 @@ deriving DecidableEq, Repr
 /-- destinations: the count variable `sz` and the fields of the four receiver types, by their Go names -/
 inductive Fld | sz | Tag | Timestamp | Record | Options | Entries | EventStream
   | MessageType | ClientHostname | SharedKeySalt | SharedKeyHexDigest | Username | Password | AuthResult | Reason | ServerHostname
+  | Nonce | Auth | Keepalive | Ack | OptionsNonce | OptionsAuth | OptionsKeepalive   -- `Options.Nonce` …: fields behind the Helo's options pointer
   | other (name : String)
 deriving DecidableEq, Repr
 
